@@ -36,7 +36,6 @@ import (
 	metav1 "k8s.io/apimachinery/pkg/apis/meta/v1"
 	"k8s.io/apimachinery/pkg/runtime"
 	"k8s.io/apimachinery/pkg/types"
-	clientgoscheme "k8s.io/client-go/kubernetes/scheme"
 	"k8s.io/client-go/tools/record"
 	"k8s.io/klog/v2"
 	fakeclock "k8s.io/utils/clock/testing"
@@ -47,7 +46,6 @@ import (
 
 	"github.com/koordinator-sh/koordinator/apis/configuration"
 	"github.com/koordinator-sh/koordinator/apis/extension"
-	schedulingv1alpha1 "github.com/koordinator-sh/koordinator/apis/scheduling/v1alpha1"
 	slov1alpha1 "github.com/koordinator-sh/koordinator/apis/slo/v1alpha1"
 	"github.com/koordinator-sh/koordinator/pkg/slo-controller/noderesource/framework"
 	"github.com/koordinator-sh/koordinator/pkg/slo-controller/noderesource/plugins/batchresource"
@@ -198,13 +196,14 @@ type c09rWorld struct {
 	cfg     *FakeCfgCache
 	pre     c09rPre
 	created bool
+	pods    string // the pod set the fake API server currently holds (as JSON of inp.pods)
 }
 
 func c09rNewWorld(pre c09rPre) *c09rWorld {
+	// a small scheme on purpose: the fake object tracker rebuilds a REST mapper over the whole scheme on every write
 	scheme := runtime.NewScheme()
-	_ = clientgoscheme.AddToScheme(scheme)
+	_ = corev1.AddToScheme(scheme)
 	_ = slov1alpha1.AddToScheme(scheme)
-	_ = schedulingv1alpha1.AddToScheme(scheme)
 	c := fake.NewClientBuilder().WithScheme(scheme).
 		WithIndex(&corev1.Pod{}, "spec.nodeName", func(obj ctrlclient.Object) []string {
 			return []string{obj.(*corev1.Pod).Spec.NodeName}
@@ -309,6 +308,11 @@ func (w *c09rWorld) syncNode(ctx context.Context, in c09rIn) error {
 
 // syncPods replaces the pods of the node by inp.pods
 func (w *c09rWorld) syncPods(ctx context.Context, in c09rIn) error {
+	b, _ := json.Marshal(in.Pods)
+	if w.created && string(b) == w.pods {
+		return nil
+	}
+	w.pods = string(b)
 	old := &corev1.PodList{}
 	if err := w.c.List(ctx, old); err != nil {
 		return err
